@@ -52,7 +52,12 @@ def run(run):
     tier_q = run.tier == "quick"
     dis, fails = [], []
     # (a) keys asked during lineage analysis
-    cases = [lingen.case(run.rng) for _ in range(400 if tier_q else 6000)]
+    cases = []
+    while len(cases) < (400 if tier_q else 6000):
+        c0 = lingen.case(run.rng)
+        cases.append(c0)
+        for _ in range(run.rng.choice([0, 2, 3])):          # further statements over the same catalogue, analysed one after the other in one process
+            cases.append(lingen.case(run.rng, cat=c0[0]))
     reqs = ["LINEAGE %s | %s" % (c[0].request_part(), stmt.cps(c[1])) for c in cases]
     im = core.run_impl(reqs + reqs[:100])
     mo = core.run_model(reqs)
